@@ -70,11 +70,19 @@ func childMain(p *Prop, args []string) {
 	out := fs.String("out", "", "")
 	fs.Parse(args)
 	c := newCtx(p, *tier, *seed, *shard, *nshards)
+	c.outPath = *out
 	if f, err := os.Create(*out + ".progress"); err == nil {
 		c.progress = f
 	}
 	t0 := time.Now()
+	go c.driverWatch(t0)
 	c.runAll()
+	c.finish(t0)
+}
+
+// finish writes the child's result files and exits.
+func (c *Ctx) finish(t0 time.Time) {
+	out := &c.outPath
 	res := c.result(time.Since(t0).Seconds())
 	ds := c.distinctSorted()
 	buf := make([]byte, 8*len(ds))
